@@ -70,9 +70,6 @@ PROPS = {
 
 NOT_APPLICABLE = {
     'C18': 'Debyer is a Cython/OpenMP extension that is not built and cannot be built here (np.int removed from the pinned numpy); no running code to bind a contract to, and the property is about thread schedules and reduction order, on which contract-based deductive verification is silent',
-    # provisional while their contracts are being built (moved to checks as they land):
-    'C02': 'numerical agreement with Wertheim-Thiele / discretisation error under refinement is not expressible as a contract on these functions; dilute-limit lemmas under construction; not yet claimed',
-    'C04': 'relational lemmas over the PRISM.cost contract under construction; not yet claimed',
 }
 
 A_INV = 'np.linalg.inv is modelled by its defining equations inv(A) A = A inv(A) = I: results hold for the invertible matrices on which numpy returns (singular I - Omega C raises LinAlgError in numpy; not covered)'
@@ -80,6 +77,18 @@ A_ROOT = 'A5 (R1/R2): scipy.optimize.root evaluates the cost function finitely o
 A_DST = A_EXT % 'scipy.fftpack.dst types 2/3 are functions of their input array (matched call by call), are the defining sine sums, linear, and mutually inverse up to 2N'
 
 PROPS.update({
+    'C02': {
+        'level': 'other',
+        'technique': 'lemmas over the verified contracts (dilute limit, prefactor chain) by z3 + the code-facing obligations they rest on; agreement with Wertheim-Thiele and the O(dr) refinement clause only by a bounded stand-in (real solves)',
+        'explanation': 'Deductive part: (i) the code-facing contracts that pin every prefactor the analytic results depend on -- transforms (4 pi, 1/(2 pi^2), phase), PRISM.__init__ (u/kT with the current kT, site-density scaling), PRISM.cost (PRISM equation), pair_correlation/structure_factor/second_virial definitions; (ii) lemma: for a single-site molecule hhat - chat = rho chat^2/(1 - rho chat), so at vanishing density g = 1 + F(0,u) = exp(-u) (PY, HNC) / 1-u (MSA) and B2 -> -2 pi sum (e^-u - 1) r^2 dr. NOT deductive (no contract on these functions expresses it): that the converged numerical solution agrees with the Wertheim-Thiele closed forms to O(dr) and improves under dr -> dr/2. That clause is covered only by the bounded stand-in (eta in {0.1,0.3,0.45}, two grids, dilute limit for 4 potentials x 3 closures x 3 temperatures incl. re-assigned kT).',
+        'assumptions': [A_FP, A_NUMPY, A_RANK, A_DST, A_INV, A_ROOT, 'discretisation error of the nonlinear integral equation and convergence of the iterative solver: NOT verified, bounded stand-in only'],
+    },
+    'C04': {
+        'level': 'other',
+        'technique': 'relational (2-safety) lemmas over the contract of PRISM.cost / PRISM.__init__ by z3 (abstract ring with a permutation conjugation; nonlinear reals for the species split; homogeneity of the potential specs) + the code-facing obligations they rest on; equality of two converged solves only by a bounded stand-in',
+        'explanation': 'Lemmas: (perm) the matrix part of cost is equivariant under conjugation with a permutation matrix, and all other access is keyed by type name (C13/C15/C16 contracts), so roots map to roots; (scale) every potential spec is homogeneous of degree one in its energy parameters, PRISM.__init__ hands each closure U/kT, so the reduced problem is identical and pmf scales; (split) with the sum rule on the split omegas, H_ab = rho_a rho_b h, C_ab = c solves the 2x2 equation iff (h,c) solves the unsplit one -- this pins the site/pair density conventions. Code-facing: PRISM.__init__, PRISM.cost, Density.__setitem__, MatrixArray get/setitem, pmf. That two converged *solves* agree presupposes the solver reaches the corresponding root: bounded stand-in (permutation, 6 splits, 2 scalings, 4-step sweep).',
+        'assumptions': [A_FP, A_NUMPY, A_RANK, A_INV, A_ROOT, A_TYPES, 'uniqueness of the root reached by the solver: NOT verified'],
+    },
     'C17': {
         'level': 'proof',
         'technique': TECH + '; pint modelled by a quantity algebra (magnitude, scale to SI, dimension vector, offset) whose unit facts are read from the installed registry',
@@ -118,14 +127,11 @@ PROPS.update({
     },
 })
 
-for _p in ('C02', 'C04'):
+for _p in ():
     PROPS.setdefault(_p, {'level': 'proof', 'technique': TECH, 'explanation': 'under construction', 'assumptions': [A_FP, A_ASSERT, A_NUMPY], 'registered': False})
 
 NOT_APPLICABLE = {
     'C18': 'Debyer is a Cython/OpenMP extension that is not built and cannot be built here (np.int removed from the pinned numpy); no running code to bind a contract to, and the property is about thread schedules and reduction order, on which contract-based deductive verification is silent',
-    # provisional while their contracts are being built (moved to checks as they land):
-    'C02': 'numerical agreement with Wertheim-Thiele / discretisation error under refinement is not expressible as a contract on these functions; dilute-limit lemmas under construction; not yet claimed',
-    'C04': 'relational lemmas over the PRISM.cost contract under construction; not yet claimed',
 }
 
 for _p in ('C01', 'C02', 'C04', 'C05', 'C06', 'C08', 'C16', 'C17'):
